@@ -113,7 +113,15 @@ static void free_hook(void * p, size_t n) { scan_region(p, n); }
 
 /* OpenSSL allocations (bignums): tracked so that their release can be scanned too */
 struct ossl_hdr { size_t n; size_t pad; };
-static void * ossl_malloc(size_t n, const char * f, int l) { struct ossl_hdr * h; (void)f; (void)l; h = __real_malloc(n + sizeof(*h)); if (!h) return (NULL); h->n = n; return (h + 1); }
+static long ossl_count, ossl_failat, ossl_injected;	/* fail the ossl_failat-th OpenSSL allocation (0 = never) */
+static void * ossl_malloc(size_t n, const char * f, int l)
+{
+	struct ossl_hdr * h;
+
+	(void)f; (void)l;
+	if (++ossl_count == ossl_failat) { ossl_injected++; return (NULL); }
+	h = __real_malloc(n + sizeof(*h)); if (!h) return (NULL); h->n = n; return (h + 1);
+}
 static void ossl_free(void * p, const char * f, int l) { struct ossl_hdr * h; (void)f; (void)l; if (!p) return; h = (struct ossl_hdr *)p - 1; scan_region(p, h->n); __real_free(h); }
 static void * ossl_realloc(void * p, size_t n, const char * f, int l)
 {
@@ -434,6 +442,7 @@ do_dh(char * l)
 	char a[1024], b[1024], c[1024];
 	uint8_t pub[CRYPTO_DH_PUBLEN], priv[CRYPTO_DH_PRIVLEN], res[CRYPTO_DH_PUBLEN], le[CRYPTO_DH_PUBLEN];
 	int rc;
+	long failat = 0;
 
 	a[0] = b[0] = c[0] = 0;
 	if (strncmp(l, "dhsane ", 7) == 0) {
@@ -446,21 +455,28 @@ do_dh(char * l)
 	nsecrets = 0; tainted_frees = 0;
 	dh_mode = 1;
 	if (strncmp(l, "dhpub ", 6) == 0) {
-		if (sscanf(l, "dhpub %1023s %1023s", a, b) != 2) return;
+		if (sscanf(l, "dhpub %1023s %1023s %ld", a, b, &failat) < 2) return;
 		unhex(a, priv, sizeof(priv)); unhex(b, dh_blind, 32);
 		secret_add(priv, 32, "private exponent (big-endian)"); limbs_le(priv, 32, le); secret_add(le, 32, "private exponent (limb order)");
 		secret_add(dh_blind, 32, "blinding value (big-endian)"); limbs_le(dh_blind, 32, le); secret_add(le, 32, "blinding value (limb order)");
+		memset(res, 0xa5, sizeof(res));
+		ossl_count = ossl_injected = 0; ossl_failat = failat;
 		rc = crypto_dh_generate_pub(res, priv);
+		ossl_failat = 0;
 		vt_begin("dhpub"); vt_str("priv", a); vt_str("blind", b); vt_int("rc", rc); vt_hex("out", res, CRYPTO_DH_PUBLEN);
 	} else {
-		if (sscanf(l, "dhkey %1023s %1023s %1023s", a, b, c) != 3) return;
+		if (sscanf(l, "dhkey %1023s %1023s %1023s %ld", a, b, c, &failat) < 3) return;
 		memset(pub, 0, sizeof(pub)); unhex(a, pub, sizeof(pub)); unhex(b, priv, sizeof(priv)); unhex(c, dh_blind, 32);
 		secret_add(priv, 32, "private exponent (big-endian)"); limbs_le(priv, 32, le); secret_add(le, 32, "private exponent (limb order)");
 		secret_add(dh_blind, 32, "blinding value (big-endian)"); limbs_le(dh_blind, 32, le); secret_add(le, 32, "blinding value (limb order)");
+		memset(res, 0xa5, sizeof(res));
+		ossl_count = ossl_injected = 0; ossl_failat = failat;
 		rc = crypto_dh_compute(pub, priv, res);
+		ossl_failat = 0;
 		vt_begin("dhkey"); vt_str("pub", a); vt_str("priv", b); vt_str("blind", c); vt_int("rc", rc); vt_hex("out", res, CRYPTO_DH_KEYLEN);
 	}
 	dh_mode = 0;
+	vt_int("inj", ossl_injected); vt_int("nalloc", ossl_count);
 	vt_int("tainted", tainted_frees); if (tainted_frees) vt_str("what", tainted_what);
 	vt_end();
 	nsecrets = 0;
